@@ -433,15 +433,19 @@ class CFG(object):
         return None
 
     def forward(self, init, transfer, edge_transfer=None, avoid_edge=None,
-                limit=200000):
+                limit=200000, starts=None):
         """Forward dataflow over sets of hashable client states.
         transfer(node, state) -> iterable of out states (after the node).
         edge_transfer(src_node, label, dst_node, state) -> state or None(prune).
         Returns (in_states, out_states) dicts id -> set."""
         ins = dict((n.id, set()) for n in self.nodes)
         outs = dict((n.id, set()) for n in self.nodes)
-        ins[self.entry.id].add(init)
-        work = [(self.entry.id, init)]
+        if starts is None:
+            starts = [self.entry.id]
+        work = []
+        for sid in starts:
+            ins[sid].add(init)
+            work.append((sid, init))
         steps = 0
         while work:
             nid, st = work.pop()
